@@ -1,1 +1,2 @@
 import Ypv.Props.C03
+#print axioms Ypv.C03.placeholder
